@@ -69,6 +69,32 @@ pub struct ParamD {
 }
 
 impl DiffSet {
+    /// the first node or comment of `self` (normal form) that `o` does not carry identically; None: `o` says
+    /// everything `self` says
+    pub fn missing_in(&self, o: &DiffSet) -> Option<String> {
+        let (a, b) = (self.norm(), o.norm());
+        for (k, c) in &a.classes {
+            let Some(d) = b.classes.get(k) else { return Some(format!("class {k}")) };
+            if c.act != d.act || (c.doc != Act::None && c.doc != d.doc) {
+                return Some(format!("class {k} (action or comment)"));
+            }
+            for (what, x, y) in [("field", &c.fields, &d.fields), ("method", &c.methods, &d.methods)] {
+                for (mk, m) in x {
+                    let Some(n) = y.get(mk) else { return Some(format!("class {k} {what} {mk}")) };
+                    if m.act != n.act || (m.doc != Act::None && m.doc != n.doc) {
+                        return Some(format!("class {k} {what} {mk} (action or comment)"));
+                    }
+                    for (pi, pp) in &m.params {
+                        let Some(q) = n.params.get(pi) else { return Some(format!("class {k} {what} {mk} parameter {pi}")) };
+                        if pp.act != q.act || (pp.doc != Act::None && pp.doc != q.doc) {
+                            return Some(format!("class {k} {what} {mk} parameter {pi} (action or comment)"));
+                        }
+                    }
+                }
+            }
+        }
+        None
+    }
     pub fn count(&self) -> usize {
         self.classes.values().map(|c| 1 + c.fields.len() + c.methods.values().map(|m| 1 + m.params.len()).sum::<usize>()).sum()
     }
